@@ -84,6 +84,29 @@ def real_request(eng, conv, fw, path):
     return resp.status_code, resp.headers.get("location")
 
 
+def params_valid(eng, handler, values):
+    """Constraints declared on the handler's parameters (fastapi.Path(pattern=..., min_length=..., max_length=...)):
+    a request violating them is answered 422 by the framework before the handler runs."""
+    import inspect
+    from .. import rx, stubs
+    for name, par in inspect.signature(handler).parameters.items():
+        d = par.default
+        if not isinstance(d, stubs._Param) or name not in values:
+            continue
+        v = values[name]
+        pat = d.k.get("pattern") or d.k.get("regex")
+        if pat is not None:
+            if not isinstance(pat, str):
+                raise stubs.Unsupported("symbolic parameter pattern")
+            if not eng.branch(z3.InRe(_s(v), rx.compile_lang(pat, "search"))):     # pydantic patterns are searched, not anchored
+                return False
+        if d.k.get("min_length") is not None and not eng.branch(z3.Length(_s(v)) >= d.k["min_length"]):
+            return False
+        if d.k.get("max_length") is not None and not eng.branch(z3.Length(_s(v)) <= d.k["max_length"]):
+            return False
+    return True
+
+
 def build(job):
     fn, params = job["fn"], job["params"]
     delim = params["delim"]
@@ -124,6 +147,8 @@ def build(job):
             eng.assume(And(route.capture_constraints(_s(p), _s(i))))
             stubs = __import__("symcurie.stubs", fromlist=["x"])
             try:
+                if not params_valid(eng, handler, dict(prefix=p, identifier=i)):
+                    raise stubs.HTTPAbort(422, "request validation")
                 resp = handler(prefix=p, identifier=i)
                 status, location = resp.status_code, resp.location
             except stubs.HTTPAbort as e:
